@@ -176,12 +176,12 @@ pub fn run(ctx: &Ctx) -> i32 {
         let entries = gen::gen_entries(rng, KeyShape::K3, ValShape::Tiny, 150);
         check_file(ctx, "levels", idx, &format!("levels/{}", levels), &cfg, &entries, rng, n_ops, &maxes);
     });
-    let n = ctx.n(600, 15_000);
+    let n = ctx.n(4000, 30_000);
     ctx.par("random", n, true, |idx, rng| {
         let (entries, cfg, shape) = gen::gen_file_case(rng, 50_000);
         check_file(ctx, "random", idx, &format!("random/{:?}", shape), &cfg, &entries, rng, n_ops, &maxes);
     });
-    let n = ctx.n(300, 8000);
+    let n = ctx.n(1500, 12_000);
     ctx.par("deep", n, true, |idx, rng| {
         let levels = *rng.pick(&[2u8, 2, 3, 3, 4, 7, 16]);
         let cnt = rng.range(20, 160);
@@ -189,7 +189,7 @@ pub fn run(ctx: &Ctx) -> i32 {
         check_file(ctx, "deep", idx, "deep", &cfg, &entries, rng, n_ops, &maxes);
     });
     // big files: I/O must not grow with the number of entries
-    let sizes: Vec<usize> = if ctx.tier == Tier::Thorough { vec![200_000, 500_000, 1_000_000, 2_000_000] } else { vec![50_000, 200_000] };
+    let sizes: Vec<usize> = if ctx.tier == Tier::Thorough { vec![200_000, 500_000, 1_000_000, 2_000_000] } else { vec![50_000, 200_000, 400_000] };
     ctx.par("big", sizes.len() * 3, true, |idx, rng| {
         let n = sizes[idx as usize % sizes.len()];
         let entries: Vec<Entry> = (0..n as u32).map(|i| (i.to_be_bytes().to_vec(), vec![(i % 7) as u8; (i % 5) as usize])).collect();
